@@ -560,6 +560,26 @@ func (se *SpecEnv) callSpec(c *ast.CallExpr) Value {
 		case *PtrV, *ArrPtrV:
 			r = se.deref(r)
 		}
+		// old(s) of a slice over a modelled array: a view of the array as it was (a snapshot object), so that
+		// old(s) passed to a specification function or indexed outside old() denotes the old contents
+		if sv, isS := r.(*SliceV); isS && sv.Obj != nil && !save && se.old != nil && se.old != se.st {
+			if oc, okc := se.fr.v.content0(se.old, sv.Obj).(*ArrV); okc {
+				if cc, okn := se.fr.v.content0(se.st, sv.Obj).(*ArrV); !okn || cc.Arr != oc.Arr {
+					key := fmt.Sprintf("old!%d!%d", sv.Obj.ID, oc.Arr.id)
+					snap := se.fr.v.snapObjs[key]
+					if snap == nil {
+						snap = se.fr.v.newObject("old("+sv.Obj.Name+")", sv.Obj.Type, false)
+						if se.fr.v.snapObjs == nil {
+							se.fr.v.snapObjs = map[string]*Object{}
+						}
+						se.fr.v.snapObjs[key] = snap
+					}
+					se.st.mem[snap] = &ArrV{Arr: oc.Arr, Elem: oc.Elem}
+					se.old.mem[snap] = &ArrV{Arr: oc.Arr, Elem: oc.Elem}
+					r = &SliceV{Obj: snap, Path: sv.Path, Off: sv.Off, Len: sv.Len, Cap: sv.Cap}
+				}
+			}
+		}
 		se.inOld = save
 		return r
 	case "val":
